@@ -81,29 +81,41 @@ def rule_lookup(R):
 
 def rule_target(R):
     f = R.f
-    rt = roles.method(f, INB, "response_target")
-    R.touch(rt)
-    aggs = [rt.rvalue_term(s["rv"]) for bb, j, s in rt.assigns() if bb in rt.reachable and "agg" in s["rv"]
-            and (s["rv"]["agg"].get("adt") or "").endswith("ResponseTarget")]
-    ok = len(aggs) == 1
-    if ok:
+    try:
+        rt = roles.method(f, INB, "response_target")
+        holders = [rt]
+    except AnchorLost:
+        # the helper was folded into its users: each reply helper builds the target itself
+        rt = None
+        holders = [roles.method(f, INB, "reply"), roles.method(f, INB, "reply_owned")]
+    n = 0
+    for hb_ in holders:
+        R.touch(hb_)
+        aggs = [hb_.rvalue_term(s["rv"]) for bb, j, s in hb_.assigns() if bb in hb_.reachable and "agg" in s["rv"]
+                and (s["rv"]["agg"].get("adt") or "").endswith("ResponseTarget") and not (s["rv"]["agg"].get("adt") or "").endswith("OwnedResponseTarget")]
+        suffix = "" if rt is not None else "/" + hb_.fn_name
+        if len(aggs) != 1:
+            R.ob("target/aggregate" + suffix, False, "ResponseTarget is not built exactly once in %s" % hb_.fn_name, where=hb_.span)
+            continue
+        n += 1
         fl = dict(zip(aggs[0][4], aggs[0][5]))
         tp = peel(fl["topic"])
         cd = peel(fl["correlation_data"])
-        okt = tp[0] == "ok" and is_call(peel(tp[1]), "response_topic") and chain(peel(tp[1])[3][0])[0] == ("param", "self")
+        # the topic is the payload of response_topic(): `?`, `let Some(..) else`, match -- without a topic no target
+        src_ = tp[1] if tp[0] == "ok" else (chain(tp)[0] if chain(tp)[1] == ["@Some", "0"] else None)
+        okt = src_ is not None and is_call(peel(src_), "response_topic") and chain(peel(src_)[3][0])[0] == ("param", "self")
         okc = is_call(cd, "correlation_data") and chain(cd[3][0])[0] == ("param", "self")
-        R.ob("target/topic", okt,
+        R.ob("target/topic" + suffix, okt,
              "the reply target's topic is the message's response topic, and without one there is no target (`?`) (found %s)" % show(fl["topic"]),
-             where=rt.span)
-        R.ob("target/correlation", okc,
+             where=hb_.span)
+        R.ob("target/correlation" + suffix, okc,
              "the reply target's correlation data is an independent lookup over all of the message's properties (found %s)"
-             % show(fl["correlation_data"]), where=rt.span)
-    else:
-        R.ob("target/aggregate", False, "ResponseTarget is not built exactly once in response_target", where=rt.span)
+             % show(fl["correlation_data"]), where=hb_.span)
     # reply / reply_owned use it
     for name in ("reply", "reply_owned"):
         b = roles.method(f, INB, name)
-        okr = bool(outq.calls_to(f, b, rt)) and b.locals[0]["ty"].startswith(("core::option::Option", "core::result::Result<core::option::Option"))
+        uses = bool(outq.calls_to(f, b, rt)) if rt is not None else any(h.name == b.name for h in holders)
+        okr = uses and b.locals[0]["ty"].startswith(("core::option::Option", "core::result::Result<core::option::Option"))
         R.ob("target/%s" % name, okr, "InboundPublish::%s is derived from response_target and is optional by type" % name, where=b.span)
 
 
@@ -218,6 +230,13 @@ def rule_owned(R):
         fl = dict(zip(agg[0][4], agg[0][5]))
         def fallible(t, src):
             t = peel(t)
+            alts_ = phi_alts(t)
+            if len(alts_) > 1 or (t[0] == "agg" and t[2] == "core::option::Option"):
+                # an optional field copied case by case: None stays None, Some(x) is copied fallibly
+                somes_ = [a for a in alts_ if a[0] == "agg" and a[3] == "Some" and a[5]]
+                nones_ = [a for a in alts_ if a[0] == "agg" and a[3] == "None"]
+                if somes_ and len(somes_) + len(nones_) == len(alts_):
+                    return all(fallible(a[5][0], src) for a in somes_)
             r = roles.ok_payload_source(t)   # the Result whose Ok payload is stored (through `?`, match, map_err)
             return r is not None and is_call(r, "try_into", "try_from", "transpose") and \
                 any(is_call(x, "try_into", "try_from") for x in walk(r) if x[0] == "call") and \
